@@ -28,6 +28,7 @@ type propInfo struct {
 	ExtraBins   []string `json:"extra_bins"`
 	QuickS      int      `json:"quick_s"`
 	QuickRuns   int      `json:"quick_runs"`
+	ExtraRuns   int      `json:"extra_bin_runs"` // run-index cap for each binary in extra_bins (quick tier; x5 in the thorough tier)
 	ThoroughS   int      `json:"thorough_s"`
 	Level       string   `json:"level"`
 	Rule        string   `json:"rule"`
@@ -91,13 +92,15 @@ func main() {
 	}
 	args := os.Args[1:]
 	if len(args) == 0 {
-		die(2, "usage: check <property-id> [--tier quick|thorough] [--replay file] [--budget seconds] [--workers n]")
+		die(2, "usage: check <property-id> [--tier quick|thorough] [--replay file] [--budget seconds] [--runs n | --nocap] [--workers n]")
 	}
 	prop := args[0]
 	tier := os.Getenv("VERIF_TIER")
 	replay := ""
 	budget := 0
 	maxRuns := 0
+	explicitRuns := false
+	noCap := false // --nocap: wall-clock budget only (development)
 	workers := runtime.NumCPU()
 	for i := 1; i < len(args); i++ {
 		switch args[i] {
@@ -113,6 +116,9 @@ func main() {
 		case "--runs":
 			i++
 			maxRuns, _ = strconv.Atoi(args[i])
+			explicitRuns = true
+		case "--nocap":
+			noCap = true
 		case "--workers":
 			i++
 			workers, _ = strconv.Atoi(args[i])
@@ -191,13 +197,13 @@ func main() {
 		}
 		os.Exit(rc)
 	}
-	if budget == 0 && maxRuns == 0 && tier == "quick" && os.Getenv("VERIF_BUDGET_S") == "" {
+	if !noCap && maxRuns == 0 && tier == "quick" {
 		// quick tier = run indices [0, quick_runs) of the seed (fewer only if the wall-clock
 		// budget expires first): the same executions on every machine, so a seed that was
 		// swept quiet here cannot raise an alarm merely because another machine is faster
 		maxRuns = info.QuickRuns
 	}
-	if budget == 0 && maxRuns == 0 && tier == "thorough" && os.Getenv("VERIF_BUDGET_S") == "" {
+	if !noCap && maxRuns == 0 && tier == "thorough" {
 		// thorough tier = the same search over five times the quick range (tier-specific
 		// generator settings such as longer scripts apply), again a fixed set of executions
 		maxRuns = 5 * info.QuickRuns
@@ -245,7 +251,19 @@ func main() {
 				"VERIF_REPLAY_DIR="+replayDir, "VERIF_KNOWN="+filepath.Join(root, "known_findings.jsonl"),
 				"GOMAXPROCS=1", "VERIF_REPLAY=")
 			if maxRuns > 0 {
-				cmd.Env = append(cmd.Env, fmt.Sprintf("VERIF_MAX_RUNS=%d", (maxRuns+len(bins)-1)/len(bins)))
+				per := (maxRuns + len(bins) - 1) / len(bins)
+				if info.ExtraRuns > 0 && len(bins) > 1 && !explicitRuns {
+					// the primary binary gets the property's own range, every extra binary its own
+					if w%len(bins) == 0 {
+						per = maxRuns
+					} else {
+						per = info.ExtraRuns
+						if tier == "thorough" {
+							per *= 5
+						}
+					}
+				}
+				cmd.Env = append(cmd.Env, fmt.Sprintf("VERIF_MAX_RUNS=%d", per))
 			}
 			var so, se bytes.Buffer
 			cmd.Stdout, cmd.Stderr = &so, &se
